@@ -354,6 +354,10 @@ def _collect1(w, f):
                     apps.append(t)
                 elif n == "len_l" and t.num_args() == 1:
                     lens.append(t.arg(0))
+                elif n == "concat" and t.num_args() == 2:
+                    lens.append(("concat", t))
+                elif (n.endswith("__list") or n.startswith("comp!")) and t.num_args() >= 1:
+                    lens.append(("map", t))
             stack.extend(t.children())
     cache[k] = (f, apps, cands, lens)      # keep f alive so the id stays valid
     return apps, cands
